@@ -19,7 +19,7 @@
 //! period, keeping the repository compact.
 //!
 use crate::errors::Result;
-use crate::server::encryption::{Cryptor, Sealed, Unsealed};
+use crate::server::encryption::{Cryptor, Sealed, Secret, Unsealed};
 use crate::server::{
     AddVersionResult, GetVersionResult, HistorySegment, Server, Snapshot, SnapshotUrgency,
     VersionId,
@@ -86,6 +86,8 @@ pub(crate) struct GitSyncServer {
     remote: Option<String>,
     local_only: bool,
     cryptor: Cryptor,
+    /// The encryption secret, kept to derive the key again when the salt changes.
+    secret: Secret,
     /// Minimum age a version file must reach before cleanup() will remove it.
     version_retention: Duration,
 }
@@ -234,7 +236,8 @@ impl GitSyncServer {
     ) -> Result<GitSyncServer> {
         let git = Git::new(git_path);
         let meta = Self::init_repo(&git, &local_path, &branch, remote.as_deref(), local_only)?;
-        let cryptor = Cryptor::new(&meta.salt, &encryption_secret.into())?;
+        let secret: Secret = encryption_secret.into();
+        let cryptor = Cryptor::new(&meta.salt, &secret)?;
         let server = GitSyncServer {
             git,
             meta,
@@ -243,6 +246,7 @@ impl GitSyncServer {
             remote,
             local_only,
             cryptor,
+            secret,
             version_retention: VERSION_RETENTION,
         };
         Ok(server)
@@ -333,7 +337,13 @@ impl GitSyncServer {
 
     /// Read the meta file from disk and update self.meta.
     fn read_meta(&mut self) -> Result<()> {
-        self.meta = load_meta(&self.local_path.join("meta"))?;
+        let meta = load_meta(&self.local_path.join("meta"))?;
+        // The remote's salt replaces the one this clone started with when another replica
+        // initialised the remote first. The key must follow the salt.
+        if meta.salt != self.meta.salt {
+            self.cryptor = Cryptor::new(&meta.salt, &self.secret)?;
+        }
+        self.meta = meta;
         Ok(())
     }
 
